@@ -238,7 +238,9 @@ def data_upgrade(ctx, prog, R="C20.DATA-upgrade"):
     calls = sorted({q.short_path(t.callee) for G in prog.with_closures(F) for t in G.calls()})
     ctx.site(R, F, "returns %s; calls %s" % (_s(ret)[:80], calls))
     okc = all(any(k in c for k in ("Weak<T, A>::upgrade", "Weak::upgrade", "Option<T>::map", "Option::map", "From", "from", "Incr")) for c in calls)
-    if ret[0] == "call" and ret[1].endswith("Option::map") and okc:
+    has_up = any("upgrade" in c for c in calls)
+    shape = (ret[0] == "call" and ret[1].endswith("Option::map")) or ret[0] in ("phi", "agg")   # `.map(Incr::from)` or a match
+    if shape and okc and has_up:
         ctx.ok(R, "upgrade")
     else:
         ctx.fail(R, "upgrade", "WeakIncr::upgrade is no longer `self.0.upgrade().map(Incr::from)` (returns %s, calls %s): a "
